@@ -385,6 +385,18 @@ def registration_obligation(bods, api):
     return b, viol, reach, bad
 
 
+
+def _native_battery(out, scenario, vectors, what):
+    """validation, not the deciding step: the native scenario (real crates, oracle written from the property text) on fixed vectors must report nothing
+    when every obligation is discharged; a disagreement means an obligation or the oracle is wrong => undecided"""
+    val = R.validate_encoding(scenario, vectors, lambda v: {}, [])
+    VALIDATION[what] = val
+    if val.get("native_violations") and all(r.get("status") == "discharged" for r in out):
+        out.append(R.Result(engine="mirsym", name="validation:" + what, kind="validation", status="native-battery-disagrees",
+                            detail=f"{val['native_violations']} native violation(s) on the validation vectors although every obligation is discharged", bodies=[]))
+    return out
+
+
 def obligations(tier, seed):
     bods = R.bodies("fixture17")
     apis = declarations()
@@ -422,4 +434,4 @@ def obligations(tier, seed):
                 emit(f"byname:{label}", "kernel", b, viol, reach, bad,
                      "by-name decoding: each parameter's name and its camelCase form select that parameter's slot, every other key is ignored",
                      "all key strings (one Boolean per compared literal, mutually exclusive)", "byname:" + label)
-    return out
+    return _native_battery(out, "c17_roundtrip", [{}], "native-roundtrip")
